@@ -277,6 +277,52 @@ def units(w):
         U.append(sorted_unit(n, False))
     U.append(sorted_unit(3, True))
     U.append(sorted_unit(5, False, thorough_only=True))
+    # ---- min / max are written in Checkerlang (core.ckl): on the module's real AST (contracts/cklsym.py) with lists of <= 3 symbolic ints
+    #      and the two-argument form, with and without a key function: the result is an element whose key no other element's key
+    #      beats (the first such element)
+    import sys as _sys
+    from . import cklsym
+
+    def s_minmax(fname, n, keytxt, two):
+        def setup(it):
+            I_ = cklsym.native_session(())
+            R = cklsym.Reflector(w)
+            R.seed_singletons(_sys.modules["ckl.values"])
+            env = R.reflect(I_.environment)
+            xs = [V.int(it, f"x{i}") for i in range(n)]
+            if two:
+                text, binds = f"{fname}(p, q{keytxt})", {"p": xs[0], "q": xs[1]}
+            else:
+                text, binds = f"{fname}(a{keytxt})", {"a": V.list_of(it, xs, "a")}
+            call = R.reflect(_sys.modules["ckl.parser"].parse_script(text, "unit"))
+            it.ghost["xs"] = xs
+            it.ghost["res"] = it.call(w.func(f"nodes.py::{cls_name(call)}.evaluate"), [call, real_env(w, it, binds, parent=env)])
+            return [], {}, {}
+        return setup
+
+    def p_minmax(fname, n, keyf):
+        def post(it, c, o):
+            r, xs = it.ghost["res"], [zi(x.fields["value"]) for x in it.ghost["xs"]]
+            it.check("post:returns-an-int", cls_name(r) == "ValueInt")
+            if cls_name(r) != "ValueInt":
+                return
+            rz = zi(r.fields["value"])
+            better = (lambda a, b: keyf(a) < keyf(b)) if fname == "min" else (lambda a, b: keyf(a) > keyf(b))
+            it.check("post:an-element-whose-key-no-other-element's-key-beats", z3.And(z3.Or(*[rz == x for x in xs]), *[z3.Not(better(x, rz)) for x in xs]))
+            first = xs[-1]
+            for i in range(len(xs) - 2, -1, -1):
+                first = z3.If(z3.And(*[z3.Not(better(x, xs[i])) for x in xs]), xs[i], first)
+            it.check("post:the-first-such-element", keyf(rz) == keyf(first))
+        return post
+    for fname in ("min", "max"):
+        for keytxt, keyf, klabel in (("", lambda v: v, "no key"), (", key = fn(v) 0 - v", lambda v: 0 - v, "key -v"), (", key = fn(v) v * v", lambda v: v * v, "key v*v")):
+            for n in (1, 2, 3):
+                U.append(Unit("nodes.py::invoke", s_minmax(fname, n, keytxt, False), p_minmax(fname, n, keyf), body=lambda it, c: Outcome("return", None),
+                              name=f"core.ckl::{fname}[real module source, list of {n} symbolic ints, {klabel}]", bounded="lists of <= 3 elements (values symbolic)",
+                              replay=replay_order))
+            U.append(Unit("nodes.py::invoke", s_minmax(fname, 2, keytxt, True), p_minmax(fname, 2, keyf), body=lambda it, c: Outcome("return", None),
+                          name=f"core.ckl::{fname}[real module source, two arguments, {klabel}]", bounded="two symbolic ints", replay=replay_order))
+
     return U
 
 
